@@ -14,6 +14,18 @@ from .. import seams, netlist
 from ..catalog import KINDS, kinds_with
 from ..seams import quiet
 
+class Stopper:
+    def __init__(self, sim):
+        self.sim = sim
+        self.count = 0
+        self.at = None
+
+    def simulatorUpdated(self):
+        self.count += 1
+        if self.at is not None and self.count == self.at:
+            self.sim.stop()
+
+
 PROP = 'C04'
 TIERS = {'quick': 4800, 'thorough': 40000}
 RULE = ('each run: one seeded netlist (5-150 leaves, hierarchy 0-3, fan-out, reconvergence, registers between '
@@ -25,7 +37,7 @@ REAL = ['py4hw.simulation.Simulator (topologicalSort, propagateAll, clk)', 'py4h
 STUB = ['stimulus (wire.put between clk calls)']
 ASSUMPTIONS = ['reference models in dsim/catalog.py state the documented function of each block',
                'netlists up to ~150 leaves / chains up to 900 deep (thorough); widths up to 70']
-PROBES = ['sorter_needed_repair', 'cyclic_refused', 'reg_cycle_accepted', 'late_add', 'antidataflow_block']
+PROBES = ['stop_cancel', 'sorter_needed_repair', 'cyclic_refused', 'reg_cycle_accepted', 'late_add', 'antidataflow_block']
 
 STATEFUL_LEAVES = {'Latch', 'AsynchronousMemory', 'BidirBuf'}
 
@@ -34,6 +46,7 @@ def gen(rs, tier, index):
     rng = rs.get('design')
     mode = rng.random()
     comb = kinds_with(seq=False, exclude=('rot',)) + kinds_with(tag='rot') + (kinds_with(tag='big') if tier == 'thorough' or rng.random() < 0.15 else [])
+    comb = comb + kinds_with(tag='ifaceport')        # user primitive with interface-declared ports
     seqk = [KINDS[k] for k in ('Reg', 'Counter', 'DelayLine', 'TReg')]
     scn = {'mode': 'acyclic'}
     if mode < 0.12:
@@ -66,7 +79,8 @@ def gen(rs, tier, index):
         vec = netlist.gen_vector(sr, d['inputs'], prev)
         prev = vec
         faults = [f for f in ('resort', 'sim_restart', 'extra_settle') if fr.random() < 0.2]
-        steps.append({'vec': vec, 'clk': sr.choice([1, 1, 1, 2, 3]), 'faults': faults})
+        n = sr.choice([1, 1, 1, 2, 3, 6])
+        steps.append({'vec': vec, 'clk': n, 'faults': faults, 'stop_at': fr.randint(1, n - 1) if (n > 1 and fr.random() < 0.3) else None})
     scn['steps'] = steps
     return scn
 
@@ -222,7 +236,19 @@ def run(scn, log, st):
         ref.set_inputs(step['vec'])
         ref.settle()
         n = step['clk']
-        sim.clk(n)
+        stop_at = step.get('stop_at')
+        if stop_at:
+            # cancellation: a listener calls stop() inside clk(n); the call returns early and must leave a settled netlist
+            stopper = Stopper(sim)
+            stopper.at = stop_at
+            sim.addListener(stopper)
+            sim.clk(n)
+            sim.listeners.remove(stopper)
+            st.fault('stop_cancel')
+            st.probe('stop_cancel')
+            n = stop_at
+        else:
+            sim.clk(n)
         for _ in range(n):
             ref.edge()
         st.cycles += n
